@@ -662,6 +662,48 @@ func (e *FEnc) evalCall(env *Env, x *Ex) (*Val, error) {
 			return e.boolVal("true"), nil
 		}
 		return e.boolVal("false"), nil
+	case "rangedone": // rangedone(s): the range loop over slice s (the one before this point) has visited every index
+		if err := evalArgs(); err != nil {
+			return nil, err
+		}
+		if len(args) != 1 || args[0].Sort != "Slice" {
+			return nil, fmt.Errorf("rangedone(slice)")
+		}
+		want := e.term(args[0])
+		for _, b := range e.fn.Blocks {
+			for _, in := range b.Instrs {
+				ph, ok := in.(*ssa.Phi)
+				if !ok || ph.Comment != "rangeindex" {
+					continue
+				}
+				for _, ed := range ph.Edges {
+					inc, ok := ed.(*ssa.BinOp)
+					if !ok || inc.Op != token.ADD || inc.X != ssa.Value(ph) || inc.Referrers() == nil {
+						continue
+					}
+					for _, r := range *inc.Referrers() {
+						cmp, ok := r.(*ssa.BinOp)
+						if !ok || cmp.Op != token.LSS || cmp.X != ssa.Value(inc) {
+							continue
+						}
+						call, ok := cmp.Y.(*ssa.Call)
+						if !ok {
+							continue
+						}
+						if bi, ok := call.Call.Value.(*ssa.Builtin); !ok || bi.Name() != "len" || len(call.Call.Args) != 1 {
+							continue
+						}
+						sv := e.vals[call.Call.Args[0]]
+						iv := e.vals[inc]
+						if sv == nil || iv == nil || sv.T == "" || iv.T == "" || e.term(sv) != want {
+							continue
+						}
+						return e.boolVal(fmt.Sprintf("(= %s (sl_len %s))", iv.T, want)), nil
+					}
+				}
+			}
+		}
+		return nil, fmt.Errorf("rangedone: no range loop over that slice before this point")
 	case "samearray": // samearray(a, b): the two slices are views of the same backing array
 		if err := evalArgs(); err != nil {
 			return nil, err
